@@ -1,3 +1,74 @@
-(* C19 — placeholder until the theorems are proved: see below. *)
-From Coq Require Import List ZArith NArith Bool Arith.
-From PK Require Import PyList Episodes Stage.
+(* C19 — Output feature names describe the columns they label.
+   Only statements, closed by [exact]; proofs live in NamesFacts.v. *)
+From Coq Require Import List ZArith NArith Bool Arith String.
+From PK Require Import PyList ListFacts Episodes EpisodesFacts Stage StageEqns StageSpec StageFacts EpisodeSem Names NamesFacts NamesExample.
+Import ListNotations.
+Close Scope string_scope.
+Open Scope nat_scope.
+
+(* For EVERY stage tree (all lifting-function kinds, any nesting of SplitPipeline /
+   KoopmanPipeline), the name tree of column j, evaluated on an episode at the time of
+   output sample t, IS cell (t, j) of the lifted episode, and there is exactly one name
+   per lifted column, in column order.  The name trees are rendered to the very strings
+   get_feature_names_out returns (compared inside Coq on every run, plain and latex).
+   Only algebraic premise: 1 * x = x (the name of a monomial skips zero exponents). *)
+Theorem C19_denotes : forall (T : Type) (O : ops T) (skn : nat -> string) (E : list (list T)) (cm : string -> nat),
+  (forall x : T, op_mul O (op_t1 O) x = x) ->
+  forall (s : stage T) (ns nu : nat),
+  wf s (ns, nu) = true -> wid (ns + nu) E -> samples_in s 1 <= List.length E ->
+  let ins := map (NCol T) (seq 0 (ns + nu)) in
+  (forall t j : nat,
+     t < List.length (tf_ep O s (ns, nu) E) -> j < List.length (snames s (ns, nu) ins) ->
+     ev O skn E cm (nth j (snames s (ns, nu) ins) (NOne T)) (t + (samples_in s 1 - 1))
+     = nth j (nth t (tf_ep O s (ns, nu) E) nil) (op_t0 O))
+  /\ List.length (snames s (ns, nu) ins) = fst (sdims s (ns, nu)) + snd (sdims s (ns, nu)).
+Proof. exact names_denote. Qed.
+Print Assumptions C19_denotes.
+
+(* the same with the generated input names x_k / u_k *)
+Theorem C19_denotes_default : forall (T : Type) (O : ops T) (skn : nat -> string) (E : list (list T)) (cm : string -> nat),
+  (forall x : T, op_mul O (op_t1 O) x = x) ->
+  forall (s : stage T) (ns nu : nat),
+  wf s (ns, nu) = true -> wid (ns + nu) E -> samples_in s 1 <= List.length E ->
+  (forall k, k < ns -> cm (render skn false (NX T k)) = k) ->
+  (forall k, k < nu -> cm (render skn false (NU T k)) = ns + k) ->
+  let ins := default_names T (ns, nu) in
+  (forall t j : nat,
+     t < List.length (tf_ep O s (ns, nu) E) -> j < List.length (snames s (ns, nu) ins) ->
+     ev O skn E cm (nth j (snames s (ns, nu) ins) (NOne T)) (t + (samples_in s 1 - 1))
+     = nth j (nth t (tf_ep O s (ns, nu) E) nil) (op_t0 O))
+  /\ List.length (snames s (ns, nu) ins) = fst (sdims s (ns, nu)) + snd (sdims s (ns, nu)).
+Proof. exact names_denote_default. Qed.
+Print Assumptions C19_denotes_default.
+
+(* on the model's transform with an episode feature, for every episode label *)
+Theorem C19_denotes_transform : forall (T : Type) (O : ops T) (skn : nat -> string) (cm : string -> nat),
+  (forall x : T, op_mul O (op_t1 O) x = x) ->
+  forall (s : stage T) (ns nu : nat) (X : dmat T) (i : N),
+  wf s (ns, nu) = true -> dwid (ns + nu) X -> valid (samples_in s 1) X -> In i (labels X) ->
+  let ins := map (NCol T) (seq 0 (ns + nu)) in
+  let Y := rows_of i (transform O s true (ns, nu) X) in
+  forall t j : nat, t < List.length Y -> j < List.length (snames s (ns, nu) ins) ->
+  ev O skn (rows_of i X) cm (nth j (snames s (ns, nu) ins) (NOne T)) (t + (samples_in s 1 - 1))
+  = nth j (nth t Y nil) (op_t0 O).
+Proof. exact names_denote_transform_true. Qed.
+Print Assumptions C19_denotes_transform.
+
+(* episode_feature overrides: one name per column, the episode name first iff the call
+   has an episode column; None = the fit-time setting *)
+Theorem C19_count : forall (T : Type) (skn : nat -> string) (s : stage T) (epf : bool) (d : dims)
+  (call : option bool) (latex : bool),
+  wf s d = true ->
+  List.length (feature_names_out skn s epf d None call latex)
+  = (if fno_flag epf call then 1 else 0) + (fst (sdims s d) + snd (sdims s d)).
+Proof. exact feature_names_out_count_default. Qed.
+Print Assumptions C19_count.
+
+Theorem C19_episode_override : forall (T : Type) (skn : nat -> string) (s : stage T) (epf : bool) (d : dims)
+  (user : option (list string)) (latex : bool),
+  feature_names_out skn s epf d user (Some true) latex
+  = fno_epn T skn epf user latex :: feature_names_out skn s epf d user (Some false) latex
+  /\ feature_names_out skn s epf d user None latex = feature_names_out skn s epf d user (Some epf) latex.
+Proof. intros. split; [exact (feature_names_out_override skn s epf d user latex)|exact (feature_names_out_none skn s epf d user latex)]. Qed.
+Print Assumptions C19_episode_override.
+
